@@ -65,3 +65,74 @@ def install_socket_realize():
     def pton(fam, t):
         return _s.inet_pton(deep_realize(fam), deep_realize(t))
     A.socket = types.SimpleNamespace(AF_INET=_s.AF_INET, AF_INET6=_s.AF_INET6, inet_ntop=ntop, inet_pton=pton, error=_s.error)
+
+
+def install_struct_fix():
+    """CrossHair 0.0.110's struct.unpack model only rejects buffers that are too *short*; CPython demands the exact
+    size.  (Found by the differential replay: a 1-byte Unsigned32 payload 'decoded' symbolically.)"""
+    import struct
+    import crosshair.core as core
+    from crosshair.core import deep_realize
+    from crosshair.tracers import NoTracing
+    orig = core._PATCH_REGISTRATIONS[struct.unpack]
+    if getattr(orig, "_verif_fixed", False):
+        return
+
+    def unpack(fmt, buffer, /):
+        with NoTracing():
+            need = struct.calcsize(deep_realize(fmt))
+        if len(buffer) != need:
+            raise struct.error("unpack requires a buffer of %d bytes" % need)
+        return orig(fmt, buffer)
+    unpack._verif_fixed = True
+    core._PATCH_REGISTRATIONS[struct.unpack] = unpack
+
+
+def install_getattr_fix():
+    """CrossHair 0.0.110 evaluates getattr()/hasattr() with tracing off, so a *property* reached through the builtin
+    (MessageHeader._flags does getattr(self, f"is_{f}")) computes on symbolic values untraced and dies with
+    CrossHairInternal.  Properties are evaluated with tracing on instead; everything else is delegated."""
+    import crosshair.core as core
+    from crosshair.tracers import NoTracing
+    orig_g = core._PATCH_REGISTRATIONS[getattr]
+    orig_h = core._PATCH_REGISTRATIONS[hasattr]
+    if getattr(orig_g, "_verif_fixed", False):
+        return
+    _MISSING = object()
+
+    def _prop(obj, name):
+        if not isinstance(name, str):
+            return None
+        for k in type(obj).__mro__:
+            v = k.__dict__.get(name)
+            if v is not None:
+                return v if isinstance(v, property) else None
+        return None
+
+    def g(obj, name, default=_MISSING):
+        with NoTracing():
+            p = _prop(obj, name)
+        if p is not None and p.fget is not None:
+            if default is _MISSING:
+                return p.fget(obj)
+            try:
+                return p.fget(obj)
+            except AttributeError:
+                return default
+        if default is _MISSING:
+            return orig_g(obj, name)
+        return orig_g(obj, name, default)
+
+    def h(obj, name):
+        with NoTracing():
+            p = _prop(obj, name)
+        if p is not None and p.fget is not None:
+            try:
+                p.fget(obj)
+                return True
+            except AttributeError:
+                return False
+        return orig_h(obj, name)
+    g._verif_fixed = True
+    core._PATCH_REGISTRATIONS[getattr] = g
+    core._PATCH_REGISTRATIONS[hasattr] = h
